@@ -58,6 +58,8 @@ type internalApp struct {
 	id uint8
 	// usedBy keeps track of <F-SEID (UE session); PDR-ID> pairs using this application filter.
 	usedBy set.Set
+	// entry is the applications table entry that was installed for this filter: the one to delete.
+	entry *p4.TableEntry
 }
 
 type up4ApplicationFilter struct {
@@ -825,6 +827,7 @@ func (up4 *UP4) addInternalApplicationIDAndGetP4rtEntry(pdr pdr) (*p4.TableEntry
 		return nil, 0, ErrOperationFailedWithReason("build P4rt table entry for Applications table", err.Error())
 	}
 
+	up4Application.entry = applicationsEntry
 	up4.applicationIDs[appFilter] = up4Application
 
 	return applicationsEntry, up4Application.id, nil
@@ -849,8 +852,9 @@ func (up4 *UP4) removeInternalApplicationIDAndGetP4rtEntry(pdr pdr) (*p4.TableEn
 		return nil, internalApp.id
 	}
 
-	applicationsEntry, err := up4.p4RtTranslator.BuildApplicationsTableEntry(pdr, up4.conf.SliceID, internalApp.id)
-	if err != nil {
+	// the last user may have another precedence (the entry's priority) than the PDR the entry was built from
+	applicationsEntry := internalApp.entry
+	if applicationsEntry == nil {
 		return nil, internalApp.id
 	}
 
